@@ -36,6 +36,8 @@ type ReqSpec struct {
 	BodySeed int64  `json:"bodySeed"`
 	Chunked  bool   `json:"chunked"`  // send the body chunked (pieces of 1000 bytes) instead of Content-Length
 	HasBody  bool   `json:"hasBody"`  // false: no Content-Length and no body at all
+	Proto    string `json:"proto,omitempty"`    // "" = raw HTTP/1.1 bytes; "h2" = an HTTP/2 client (TLS + h2 to the same handler chain)
+	Streamed bool   `json:"streamed,omitempty"` // h2: the body is streamed without a declared length (no content-length)
 }
 
 // UpSpec is what the scripted upstream answers.
@@ -270,7 +272,13 @@ func (w *world) roundTrip(cs Case, id string, sc *script) Obs {
 	var o Obs
 	method := rig.UnHex(cs.Req.Method)
 	msg, panicked := rig.Recover(func() {
-		resp, err := w.gw.RoundTrip(cs.Req.raw(id), method, 60*time.Second)
+		var resp *e2e.Response
+		var err error
+		if cs.Req.Proto == "h2" {
+			resp, err = w.roundTripH2(cs.Req, id)
+		} else {
+			resp, err = w.gw.RoundTrip(cs.Req.raw(id), method, 60*time.Second)
+		}
 		if err != nil {
 			o.Err = err.Error()
 			return
